@@ -27,6 +27,7 @@ from ..gen import mutate as M
 from . import C06
 
 ID = "C07"
+MERGE = ["C07prompt"]   # promptness / crash search streams (coordinator)
 PROPS_FILE = "Props/C07.v"
 PROPS_EXTRA = ["Props/C07e2e.v"]   # end-to-end corollaries (coordinator)
 GEN_DEPS = ["GenGrammar", "GenUnits"]
@@ -36,6 +37,7 @@ THEOREMS: Dict[str, str] = {
     "C07_smoke": "example",
     "C07_no_crash_partial": "partial", "C07_no_crash_partial_ex": "example",
     "C07_overflow_refuted": "refuted", "C07_308_digits_fine": "example",
+    "C07_fuel_suffices": "full",
     "C07_position_wellformed": "full",
     "C07_error_points_at_token": "full", "C07_src_error_points_at_token": "full", "C07_error_points_ex": "example",
 }
